@@ -34,6 +34,11 @@ import Mdns.Lemmas.ResponderSched
     others in between send the probe query for `n` on `i` at exactly `T`, `T+250`, `T+500`
     (every family, `ANY n`, all records as authorities) and at no other iteration, and the
     records are active after the iteration at `T+750`;
+  * from the registration on (`registration_starts_probe`, `registration_probe_lifecycle`): in any
+    running daemon state, `register(svc)` at `t0` under jitter `j ≥ 1` and a timely scheduler give,
+    for every unique record the daemon did not hold, probe queries for its name in exactly the
+    iterations at `t0+j`, `+250`, `+500` and the record active after `t0+j+750` (for `j = 0` the first
+    query leaves in the registration iteration itself);
   The statement for every service, interface and start time is `probe_lifecycle_full`.
 
   Findings kept as theorems about the model (= the code, by the correspondence):
@@ -192,6 +197,62 @@ theorem probe_schedule_in_daemon (s : State) (i : MyIntf) (l1 l2 : List MyIntf) 
   simp only [askTimes_append]
   rw [a1, a2, a3, a4]
   rfl
+
+/-- REGISTRATION STARTS THE PROBE (any running daemon state, `register(svc)` processed at `now`
+    under jitter `j` in an iteration without datagram or other command): for a unique record `a`
+    of the service on interface `i` that this daemon does not hold yet - not active, its name `n`
+    not being probed - the probe of `n` on `i` exists afterwards with start `now + j`, holding `a`
+    or a matching record `b`; a probe query went out in this very iteration iff `j = 0`. -/
+theorem registration_starts_probe (s : State) (i : MyIntf) (l1 l2 : List MyIntf) (svc : Service) (now j : Nat)
+    (v4 : Bool) (a : RR) (n : BList)
+    (hrun : s.stopped = false) (hi : IntfsOk s i l1 l2) (hok : RerunsOk s)
+    (hpn : KeysNodup (s.registry i.index).probing) (hnr : NoRen (s.registry i.index))
+    (hlen : Names.checkServiceNameLength svc.ty s.nameLenMax = .ok ()) (hauto : svc.addrAuto = false)
+    (hprobe : svc.probe = true) (hne : addrsOn svc i v4 ≠ [])
+    (ha : a ∈ uniqueRecords svc i (s.registry i.index) v4) (hname : a.getName = n)
+    (hinactive : (s.registry i.index).isActive a = false) (hfresh : alookup n (s.registry i.index).probing = none) :
+    ∃ b, a.matchesRR b = true ∧ b.getName = n ∧
+      Good (iter s { now := now, jitter := j, cmds := [.register svc] }).1 i l1 l2 n (now + j)
+        (if j = 0 then now + 250 else now + j) [b] ∧
+      (j ≠ 0 → asked i.index n (iter s { now := now, jitter := j, cmds := [.register svc] }).2 = false) ∧
+      (j = 0 → ∀ v4', i.hasFamily v4' = true →
+        ∃ pkt, Out.send i.index v4' none pkt ∈ (iter s { now := now, jitter := j, cmds := [.register svc] }).2 ∧
+          pkt.flags = 0 ∧ (n, TYPE_ANY) ∈ pkt.questions ∧ b ∈ pkt.authorities) :=
+  registration_creates_probe s i l1 l2 svc now j v4 a n hrun hi hok hpn hnr hlen hauto hprobe hne ha hname hinactive hfresh
+
+/-- FROM REGISTRATION TO ACTIVE RECORD, jitter `j ≥ 1`, timely scheduler, no conflict: in any
+    running daemon state, `register(svc)` at `t0` under jitter `j`, then idle iterations at exactly
+    `T = t0+j`, `T+250`, `T+500`, `T+750` and at any other instants in between.  For a unique
+    record `a` of the service on interface `i` that the daemon did not hold: no probe query for its
+    name `n` in the registration iteration; afterwards probe queries for `n` leave on `i` in
+    exactly the iterations at `T`, `T+250`, `T+500`; and after the iteration at `T+750` the record
+    `a` is active on `i` - not before the probe is 750 ms old (`active_only_after_probe`). -/
+theorem registration_probe_lifecycle (s : State) (i : MyIntf) (l1 l2 : List MyIntf) (svc : Service) (t0 j : Nat)
+    (v4 : Bool) (a : RR) (n : BList)
+    (hrun : s.stopped = false) (hi : IntfsOk s i l1 l2) (hok : RerunsOk s)
+    (hpn : KeysNodup (s.registry i.index).probing) (hnr : NoRen (s.registry i.index))
+    (hlen : Names.checkServiceNameLength svc.ty s.nameLenMax = .ok ()) (hauto : svc.addrAuto = false)
+    (hprobe : svc.probe = true) (hne : addrsOn svc i v4 ≠ [])
+    (ha : a ∈ uniqueRecords svc i (s.registry i.index) v4) (hname : a.getName = n)
+    (hinactive : (s.registry i.index).isActive a = false) (hfresh : alookup n (s.registry i.index).probing = none)
+    (hj : j ≠ 0) (hfam : ∃ v4', i.hasFamily v4' = true)
+    (pre0 pre1 pre2 pre3 : List Nat)
+    (h0 : ∀ t ∈ pre0, t < t0 + j) (h1 : ∀ t ∈ pre1, t < t0 + j + 250) (h2 : ∀ t ∈ pre2, t < t0 + j + 500)
+    (h3 : ∀ t ∈ pre3, t < t0 + j + 750) :
+    asked i.index n (iter s { now := t0, jitter := j, cmds := [.register svc] }).2 = false ∧
+    askTimes i.index n
+      (idleRun j (iter s { now := t0, jitter := j, cmds := [.register svc] }).1
+        ((pre0 ++ [t0 + j]) ++ ((pre1 ++ [t0 + j + 250]) ++ ((pre2 ++ [t0 + j + 500]) ++ (pre3 ++ [t0 + j + 750]))))).2 =
+      [t0 + j, t0 + j + 250, t0 + j + 500] ∧
+    ((idleRun j (iter s { now := t0, jitter := j, cmds := [.register svc] }).1
+        ((pre0 ++ [t0 + j]) ++ ((pre1 ++ [t0 + j + 250]) ++ ((pre2 ++ [t0 + j + 500]) ++ (pre3 ++ [t0 + j + 750]))))).1.registry
+      i.index).isActive a = true := by
+  obtain ⟨b, hm, hbn, hg, hno, _⟩ := registration_creates_probe s i l1 l2 svc t0 j v4 a n hrun hi hok hpn hnr hlen hauto hprobe
+    hne ha hname hinactive hfresh
+  simp only [hj, ↓reduceIte] at hg
+  obtain ⟨hask, hact⟩ := probe_schedule_in_daemon _ i l1 l2 n (t0 + j) [b] j hg hfam pre0 pre1 pre2 pre3 h0 h1 h2 h3
+  refine ⟨hno hj, hask, ?_⟩
+  exact isActive_of_matches _ a b hm (hname.trans hbn.symm) (hact b (by simp) hbn)
 
 /-! ### findings (the model mirrors the code; both agree on the witnesses in corpus/C07) -/
 
@@ -368,5 +429,22 @@ example : Good probingState eth0 [] [] web.fullname 1000007 1000007 [webTxt, web
     have : probingState.reruns = [] := by decide +kernel
     rw [this] at hm
     cases hm
+
+/-! non-vacuity of `registration_probe_lifecycle`: its hypotheses hold for `register(web)` on the
+    fresh daemon with the SRV record of `web` (jitter 7, no extra iterations) -/
+
+theorem init_registry : (init 1000000 [eth0]).registry eth0.index = {} := by decide +kernel
+
+example :
+    askTimes 2 web.fullname
+      (idleRun 7 (iter (init 1000000 [eth0]) { now := 1000000, jitter := 7, cmds := [.register web] }).1
+        (([] ++ [1000000 + 7]) ++ (([] ++ [1000000 + 7 + 250]) ++ (([] ++ [1000000 + 7 + 500]) ++ ([] ++ [1000000 + 7 + 750]))))).2 =
+      [1000000 + 7, 1000000 + 7 + 250, 1000000 + 7 + 500] :=
+  (registration_probe_lifecycle (init 1000000 [eth0]) eth0 [] [] web 1000000 7 true webSrv web.fullname
+    (by decide) ⟨by decide, by simp⟩ (fun _ _ _ _ h => by simp [init] at h)
+    (by rw [init_registry]; unfold KeysNodup; decide) (by rw [init_registry]; exact NoRen.empty)
+    (by decide) rfl rfl (by decide) (by rw [init_registry]; decide) rfl (by rw [init_registry]; decide)
+    (by rw [init_registry]; decide) (by decide) ⟨true, by decide⟩ [] [] [] []
+    (by simp) (by simp) (by simp) (by simp)).2.1
 
 end Mdns.Props.C07
